@@ -809,7 +809,7 @@ def r09_8(ctx):
         for nn, bx, t in sup.calls():
             f = fn_of(t) or {}
             cb = lib.by_id.get(f.get("resolved") or f.get("def"))
-            if cb and cb.raw.get("ret_ty", "").startswith("std::result::Result<&[u8], std::io::Error>") and len(t["args"]) == 2:
+            if common.is_prefix_accessor(lib, cb) and len(t["args"]) == 2:
                 tr = strace(sup, nn, t["args"][1])
                 v = const_value(t["args"][1]) if t["args"][1].get("k") == "const" else (tr.origin[1].get("v") if tr.origin and tr.origin[0] == "const" else None)
                 if isinstance(v, int):
